@@ -159,7 +159,7 @@ func ExecOpts(op M) (res any) {
 			res = fmt.Sprintf("panic: %v", r)
 		}
 	}()
-	if asStr(op["op"]) != "optsHist" {
+	if asStr(op["op"]) != "optsHist" || !optsWellFormed(op) {
 		return "unknown-op"
 	}
 	isWriter := asStr(op["kind"]) == "writer"
@@ -275,6 +275,11 @@ func ExecOpts(op M) (res any) {
 					n, _ := strconv.Atoi(cellGet(sm["cell"], "Indent", "0"))
 					co.RenderOptions = &native.RenderOptions{Indent: n}
 				}
+				for _, kv := range asList(sm["fo"]) {
+					if p := asList(kv); len(p) == 2 {
+						co.SetFormatOptions(asStr(p[0]), asStr(p[1]))
+					}
+				}
 				buf := nopCloser{&bytes.Buffer{}}
 				if err := ws[i].WriteStreamWithOptions(tinyDoc, buf, co); err != nil {
 					eff = M{"format": "err"}
@@ -311,6 +316,53 @@ func ExecOpts(op M) (res any) {
 		}
 	}
 	return outs
+}
+
+// optsWellFormed rejects operations the shrinker has cut below what the interpreter needs
+func optsWellFormed(op M) bool {
+	num := func(v any) bool { _, ok := v.(float64); return ok }
+	if k := asStr(op["kind"]); k != "writer" && k != "reader" {
+		return false
+	}
+	for _, st := range asList(op["steps"]) {
+		sm, ok := st.(M)
+		if !ok {
+			return false
+		}
+		switch asStr(sm["s"]) {
+		case "new":
+			for _, x := range asList(sm["settings"]) {
+				xm, ok := x.(M)
+				if !ok {
+					return false
+				}
+				switch asStr(xm["t"]) {
+				case "format":
+				case "replace":
+					if !num(xm["k"]) {
+						return false
+					}
+				case "setKey":
+					if !num(xm["k"]) || asStr(xm["key"]) == "" {
+						return false
+					}
+				default:
+					return false
+				}
+			}
+		case "mutate":
+			if !num(sm["i"]) || !num(sm["k"]) || asStr(sm["key"]) == "" {
+				return false
+			}
+		case "call":
+			if !num(sm["i"]) {
+				return false
+			}
+		default:
+			return false
+		}
+	}
+	return true
 }
 
 func optsGen(g *G, tier string) []M {
@@ -381,7 +433,12 @@ func optsGen(g *G, tier string) []M {
 					if g.Chance(0.5) {
 						cell = []any{[]any{"Indent", strconv.Itoa(g.Pick2([]int{1, 3, 5}))}}
 					}
-					steps = append(steps, M{"s": "call", "i": float64(i), "k": 0.0, "f": g.Pick([]string{"", string(formats.SPDX23JSON), string(formats.CDX15JSON)}), "cell": cell})
+					st := M{"s": "call", "i": float64(i), "k": 0.0, "f": g.Pick([]string{"", string(formats.SPDX23JSON), string(formats.CDX15JSON)}), "cell": cell}
+					if g.Chance(0.5) {
+						// format options of the call only
+						st["fo"] = []any{[]any{g.Pick(optKeys[:2]), g.Pick([]string{"call1", "call2"})}}
+					}
+					steps = append(steps, st)
 				} else {
 					var cell any
 					if g.Chance(0.5) {
@@ -442,9 +499,37 @@ func oracleOpts(op M, res any, exec func(M) any) []Finding {
 	if s, ok := res.(string); ok && strings.HasPrefix(s, "panic") {
 		return []Finding{{"C18", "configuration history panicked: " + s}}
 	}
-	// a constructor without options yields the documented defaults, wherever it stands in the history
 	steps := asList(op["steps"])
 	rl := asList(res)
+	// options of a single call hold for that call only: the configurations after a call are those before it
+	for si := 1; si < len(steps) && si < len(rl); si++ {
+		sm, _ := steps[si].(M)
+		a, _ := rl[si-1].(M)
+		b, _ := rl[si].(M)
+		if sm != nil && a != nil && b != nil && asStr(sm["s"]) == "call" && !Equal(Normalize(a["cfgs"]), Normalize(b["cfgs"])) {
+			out = append(out, Finding{"C18", fmt.Sprintf("a call with its own options (step %d) changed the configuration of an instance: %s -> %s", si, js(a["cfgs"]), js(b["cfgs"]))})
+		}
+	}
+	// other instances are untouched by a constructor or by a write through one instance
+	for si := 1; si < len(steps) && si < len(rl); si++ {
+		sm, _ := steps[si].(M)
+		a, _ := rl[si-1].(M)
+		b, _ := rl[si].(M)
+		if sm == nil || a == nil || b == nil {
+			continue
+		}
+		ca, cb := asList(a["cfgs"]), asList(b["cfgs"])
+		skip := -1
+		if asStr(sm["s"]) == "mutate" {
+			skip = int(asInt(sm["i"]))
+		}
+		for j := 0; j < len(ca) && j < len(cb); j++ {
+			if j != skip && asStr(sm["s"]) != "call" && !Equal(Normalize(ca[j]), Normalize(cb[j])) {
+				out = append(out, Finding{"C18", fmt.Sprintf("step %d (%s) changed the configuration of instance %d: %s -> %s", si, asStr(sm["s"]), j, js(ca[j]), js(cb[j]))})
+			}
+		}
+	}
+	// a constructor without options yields the documented defaults, wherever it stands in the history
 	idx := -1
 	for si, st := range steps {
 		sm, _ := st.(M)
@@ -456,7 +541,11 @@ func oracleOpts(op M, res any, exec func(M) any) []Finding {
 			if len(asList(sm["settings"])) == 0 {
 				cfgs := asList(rl[si].(M)["cfgs"])
 				if idx < len(cfgs) {
-					want := M{"format": "", "cells": op["defaults"]}
+					dfl := readerDefaults
+					if asStr(op["kind"]) == "writer" {
+						dfl = writerDefaults
+					}
+					want := M{"format": "", "cells": dfl}
 					if !Equal(Normalize(cfgs[idx]), Normalize(want)) {
 						out = append(out, Finding{"C18", fmt.Sprintf("instance %d built without options does not have the documented defaults: %s", idx, js(cfgs[idx]))})
 					}
